@@ -3,7 +3,7 @@ PLAN['C06'] = dict(
     units=std_units('C06', [('asan', 'sdcz', 3600, 80000), ('asan-vb', 'sdcz', 1350, 20000), ('asan-i64', 'sdcz', 1350, 15000)], chunk=40),
     rule='generated call histories of ?gssvx on one sparsity pattern: alphabet {DOFACT, SamePattern, SamePattern_SameRowPerm, FACTORED(Trans,nrhs)} under the documented preconditions (examples dlinsolx2/3), value streams {same, 1e-3 perturbation, unrelated values, global and per-line rescaling}, malloc and caller workspace, NC/NR; '
          'every step: A/B mutation, structure, factor identity, multiplier bound, residual in the scaled system; FACTORED steps: byte hashes of L,U,perm_r,perm_c,etree,R,C,A; non-trivial = at least two solution verdicts in the history',
-    counter_names=['steps executed', 'reuse steps whose remembered row pivots were abandoned', 'reuse steps that kept the remembered pivots', 'max factor identity/bound per-mille', 'max residual/bound per-mille', 'reuse steps with in-flight expansions'],
+    counter_names=['steps executed', 'reuse steps whose remembered row pivots were abandoned', 'reuse steps that kept the remembered pivots', 'max factor identity/bound per-mille', 'max residual/bound per-mille', 'reuse steps with in-flight expansions', 'columns whose diagonal was taken although it was not the largest candidate'],
     min_nontrivial={'quick': 300, 'thorough': 30000},
     require_tags={'quick': ['op=DOFACT', 'op=SamePattern', 'op=SameRowPerm', 'op=FACTORED', 'rowperm-abandoned', 'mem=workspace', 'NR', 'reuse-expansion=workspace', 'reuse-expansion=malloc']},
     assumptions=['each per-step predicate is one already argued for C01-C05', 'refined solutions judged only under the Skeel/conditioning gate'],
